@@ -46,6 +46,15 @@ func transformReqs(
 			continue
 		}
 		for _, n := range names {
+			// A project that is required under several names at different versions comes
+			// back once per version when the requirements are returned as they are: every
+			// name keeps its own version then (and otherwise gets the highest one).
+			if prev, ok := newReqs[n]; ok {
+				own := requirementVersion(root.Requirements[n]).Version
+				if prev.Version == own || v.Version != own && semver.Compare(prev.Version, v.Version) >= 0 {
+					continue
+				}
+			}
 			newReqs[n] = versionRequirement(v)
 		}
 	}
